@@ -78,6 +78,14 @@ def gen_case(g):
         sh = [] if pyk == "num" else r.choice([shape, []])
         dk = r.choice(["i8", "f8"]) if pyk == "num" else db
         uu = ub if pyk == "arr" else ""
+        if op != "div" and exact and r.random() < 0.4:
+            # a boolean Vector (a mask built from comparisons) under a reflected operator: n - mask, n * mask, n + mask
+            # promote to the dtype of the other operand before anything is negated
+            prog.clear()
+            v = mkvec(g, prog, 10, n, shape, "b", "", name="")
+            op = r.choice(["sub", "sub", "add", "mul"])
+            if pyk == "arr":
+                uu = ""
         if op == "div" and exact:
             # the divisor is the Vector: powers of two (floats) / small integers keep the quotients exact
             prog.clear()
